@@ -14,7 +14,7 @@ META = {
   "technique": "runtime monitoring: conservation/eligibility invariant oracle over real selection executions (exhaustive small scope + sampled), API-level replay with LMDB state diff",
  },
  "C08": {
-  "text": "Runtime monitoring with a differential oracle: every generated well-typed slate is pushed through all encoders/decoders of the real code and the decoded native values are compared field by field (original vs. decoded, path vs. path, and back at the SlateV4 level), several 10^4 slates x ~10 paths per run, with per-field hit counters proving that every optional field and boundary value was exercised. Stored-record codecs include encrypted Slatepack structures with 0-3 recipients kept in the encrypted metadata and an optional sender.",
+  "text": "Runtime monitoring with a differential oracle: every generated well-typed slate is pushed through all encoders/decoders of the real code and the decoded native values are compared field by field (original vs. decoded, path vs. path, and back at the SlateV4 level), several 10^4 slates x ~10 paths per run, with per-field hit counters proving that every optional field and boundary value was exercised. Stored-record codecs include encrypted Slatepack structures with 0-3 recipients kept in the encrypted metadata and an optional sender. Also judged: finalized slates of real two-wallet payments with plain, height-locked and NRD kernels (the kernel the decoder rebuilds must be the encoded transaction's), fee fields that are non-zero multiples of 2^40, and - under the test chain type's limits - slates close to the maximum weight, whose slatepacks must be readable.",
   "design_ref": "DESIGN.md section 5 C08",
   "note": "Trusts the harness's field-by-field equality (kernel of the embedded transaction excluded by design) and its notion of well-typed (documented bounds in the evidence assumptions).",
   "technique": "runtime monitoring: field-by-field equality oracle over real encode/decode executions of structurally generated slates through every encoding path; AddressSanitizer pass (thorough)",
@@ -26,13 +26,13 @@ META = {
   "technique": "runtime monitoring: decrypt/refuse/cleartext/tamper oracles over real slatepack executions with exhaustive single edits of the first message per shard; AddressSanitizer pass (thorough)",
  },
  "C09": {
-  "text": "Runtime monitoring of every decoder entry point under hostile input: unwinding is caught and attributed to its panic site, allocation and CPU are metered per input, aborts are attributed through a per-input journal, and the wallet's raw LMDB content and files are diffed after rejected inputs on wallet-facing entries. Several 10^5 (quick) to 10^6 (thorough) inputs per run, exhaustive over single positions of the first valid encodings.",
+  "text": "Runtime monitoring of every decoder entry point under hostile input: unwinding is caught and attributed to its panic site, allocation and CPU are metered per input, aborts are attributed through a per-input journal, and the wallet's raw LMDB content and files are diffed after rejected inputs on wallet-facing entries. Several 10^5 (quick) to 10^6 (thorough) inputs per run, exhaustive over single positions of the first valid encodings. The foreign receive_tx requests vary the destination parameter; the address corpus includes base32-padded strings; owner calls whose string parameters are decoded by hand are sent through the encrypted channel. The CPU allowance per input is 5 s plus 0.5 ms per input byte.",
   "design_ref": "DESIGN.md section 5 C09",
   "note": "No coverage-guided fuzzer decides the verdict (technique family); inputs are structure-aware. Thorough tier: the quick workload again under AddressSanitizer (Rust + C), a deterministic 3 % sample under valgrind memcheck (memory errors judged everywhere, uses of uninitialised values only in wallet code: the secp256k1 binding's MaybeUninit out-parameters are reported inside the C library for malformed keys/proofs and are not judged), and the pure-Rust decoder subset under Miri (/verif/miri).",
   "technique": "runtime monitoring: panic/allocation/CPU/state-diff monitors around real decoder executions on structure-aware hostile inputs; AddressSanitizer, valgrind memcheck and Miri passes (thorough)",
  },
  "C03": {
-  "text": "Runtime monitoring of the real wallets under generated interleaved histories (several thousand steps per quick run, tens of thousands thorough) with an exclusivity/idempotence monitor evaluated after every step. Repeats include the reserve step delivered again after the transaction was cancelled. Repeats that name another account of the same wallet are judged too (receive into another account; an already paid self-issued invoice processed and reserved from another account), and the histories call tx_lock_outputs on late-locked sends as the command line does.",
+  "text": "Runtime monitoring of the real wallets under generated interleaved histories (several thousand steps per quick run, tens of thousands thorough) with an exclusivity/idempotence monitor evaluated after every step. Repeats include the reserve step delivered again after the transaction was cancelled. Repeats that name another account of the same wallet are judged too (receive into another account; an already paid self-issued invoice processed and reserved from another account), and the histories call tx_lock_outputs on late-locked sends as the command line does. Self-paid invoices are also finalized while their paying half is not (or no longer) reserved.",
   "design_ref": "DESIGN.md section 5 C03",
   "note": "Histories are sampled; the monitor reads wallet state through the backend iterators after each step.",
   "technique": "runtime monitoring: invariant monitor (reservation exclusivity, idempotent repeats) over generated interleaved histories on real LMDB wallets and chain",
@@ -56,7 +56,7 @@ META = {
   "technique": "runtime monitoring with fault injection: syscall-level crash/failing-write enumeration + recovery invariant oracle",
  },
  "C12": {
-  "text": "Runtime monitoring: nonce/excess freshness and cleartext-secret monitors ride on generated multi-slate histories of real wallets (raw on-disk bytes and every emitted message searched after every 40 steps); seed-file password semantics are checked against an independent decryptor; password change and phrase recovery are interrupted at every persistence call by the syscall interposer. M-secrets also has a public-data clause: no emitted slate's offset (or the change of the offset made by the wallet) may equal plus or minus a participant's blinding key, checked as (+/-)x*G == public_blind_excess; the workload repeats protocol steps, sends invoices that reuse the slate id of one of the victim's pending sends or of an invoice the victim issued itself, and pays its own invoices. The seed-file job also tries the right password followed by NUL bytes.",
+  "text": "Runtime monitoring: nonce/excess freshness and cleartext-secret monitors ride on generated multi-slate histories of real wallets (raw on-disk bytes and every emitted message searched after every 40 steps); seed-file password semantics are checked against an independent decryptor; password change and phrase recovery are interrupted at every persistence call by the syscall interposer. M-secrets also has a public-data clause: no emitted slate's offset (or the change of the offset made by the wallet) may equal plus or minus a participant's blinding key, checked as (+/-)x*G == public_blind_excess; the workload repeats protocol steps, sends invoices that reuse the slate id of one of the victim's pending sends or of an invoice the victim issued itself, and pays its own invoices. The seed-file job also tries the right password followed by NUL bytes. The public-data clause also covers the step across finalization: the offset of the finalized slate minus the offset of the slate handed in, against every public excess seen in the flight's slates.",
   "design_ref": "DESIGN.md section 5 C12",
   "note": "Known open findings: the stored context keeps initial_sec_key/initial_sec_nonce unmasked; the seed file also opens with its password followed by NUL bytes (HMAC key padding) - see known_findings.json.",
   "technique": "runtime monitoring: byte-search and nonce-uniqueness monitors over histories + fault-injected seed-file operations with an independent decryptor",
@@ -86,7 +86,7 @@ META = {
   "technique": "runtime monitoring: soundness oracle over altered replies and altered exported proofs on real wallets and chain",
  },
  "C07": {
-  "text": "Runtime monitoring with a frame-condition oracle on the wallet's raw database content, files and spendable balance around every foreign call of generated hostile and honest sequences (direct calls and the JSON-RPC handler), several thousand calls per quick run. The victim's state holds pending sends of every kind (including a late-locked one, against which forged finalize calls are made) and honest receipts that were put into the reverted state before the same slate is delivered again.",
+  "text": "Runtime monitoring with a frame-condition oracle on the wallet's raw database content, files and spendable balance around every foreign call of generated hostile and honest sequences (direct calls and the JSON-RPC handler), several thousand calls per quick run. The victim's state holds pending sends of every kind (including a late-locked one, against which forged finalize calls are made) and honest receipts that were put into the reverted state before the same slate is delivered again. Forged finalize calls include a reply to the late-locked send fabricated with a throwaway key (verifying partial signature, no output).",
   "design_ref": "DESIGN.md section 5 C07",
   "note": "The oracle parses the stored JSON records; counters (log id, derivation index) are exempt.",
   "technique": "runtime monitoring: frame-condition oracle (complete LMDB dump diff) over sequences of honest and hostile foreign calls; AddressSanitizer pass (thorough)",
@@ -104,7 +104,7 @@ META = {
   "technique": "runtime monitoring: token sweep with database frame condition + masked/unmasked differential execution",
  },
  "C18": {
-  "text": "Runtime monitoring on a real grin_chain::Chain that the harness reorganises block by block: after every reorganisation the recipient's records, balance figures and coin selection are judged against kernel and UTXO membership read from the chain. In every other scenario the recipient wallet has a second account whose log entries carry the same per-account ids as the payment. Every other payment carries a time-to-live that has passed when it is reorganised away; every fifth scenario the recipient has reserved (and possibly released again) the received output for a payment of its own before the reorganisation (open finding).",
+  "text": "Runtime monitoring on a real grin_chain::Chain that the harness reorganises block by block: after every reorganisation the recipient's records, balance figures and coin selection are judged against kernel and UTXO membership read from the chain. In every other scenario the recipient wallet has a second account whose log entries carry the same per-account ids as the payment. Every other payment carries a time-to-live that has passed when it is reorganised away; every fifth scenario the recipient has reserved (and possibly released again) the received output for a payment of its own before the reorganisation (open finding). Another fifth of the scenarios continues with a recipient wallet restored from its seed after the payment confirmed (open finding: restored entries carry no kernel).",
   "design_ref": "DESIGN.md section 5 C18",
   "note": "Fork blocks carry neutral coinbases; flip-flop depth is bounded to 0-3 blocks below the receiving block. Known open finding: a revert is not tracked once the recipient has reserved the received output (known_findings.json).",
   "technique": "runtime monitoring: chain-truth oracle over generated reorganisation scenarios on a real chain",
